@@ -126,6 +126,18 @@ class Prog(nn.Module):
         if kind in ("res", "res_r"):
             sub = [self._mk(b, 100 + i * 10 + j) for j, b in enumerate(branch)]
             return (kind, sub)
+        if kind == "par":
+            # two independent residual streams a0 + fA(a0), b0 + fB(b0) (a0, b0 = separate projections of x), merged by a product
+            half = len(branch) // 2
+            la = nn.Linear(d, d)
+            lb = nn.Linear(d, d, bias=False)
+            self.mods.append(la)
+            ia = len(self.mods) - 1
+            self.mods.append(lb)
+            ib = len(self.mods) - 1
+            sa = [self._mk(b, 200 + i * 20 + j) for j, b in enumerate(branch[:half])]
+            sb = [self._mk(b, 200 + i * 20 + 10 + j) for j, b in enumerate(branch[half:])]
+            return ("par", ia, ib, sa, sb)
         return (kind,)
 
     def input_shapes(self) -> Dict[str, Tuple[Tuple[int, ...], torch.dtype]]:
@@ -148,6 +160,8 @@ class Prog(nn.Module):
             out.append(it)
             if it[0] in ("res", "res_r"):
                 out.extend(it[1])
+            if it[0] == "par":
+                out.extend(it[3] + it[4])
         return out
 
     def _apply(self, item: Any, x: torch.Tensor, extra: Dict[str, torch.Tensor]) -> torch.Tensor:
@@ -228,6 +242,14 @@ class Prog(nn.Module):
             for sub in item[1]:
                 r = self._apply(sub, r, extra)
             return x + r if k == "res" else r + x
+        if k == "par":
+            a0, b0 = self.mods[item[1]](x), self.mods[item[2]](x)
+            ra, rb = a0, b0
+            for sub in item[3]:
+                ra = self._apply(sub, ra, extra)
+            for sub in item[4]:
+                rb = self._apply(sub, rb, extra)
+            return (a0 + ra) * (rb + b0)
         raise KeyError(k)
 
     def forward(self, x: torch.Tensor, *extra_args: torch.Tensor) -> torch.Tensor:
@@ -300,6 +322,15 @@ def programs(tier: str, family: str = "c16") -> List[Any]:
                 if not th and post is not None and (BRANCHES.index(r.branch) + len(pre.kind)) % 2:
                     continue
                 specs.append(([pre, r] + ([post] if post else []), head, pre.kind == "add_in" and r.kind == "res" and post is None))
+    # DAGs: two parallel residual streams merged later (the last residual add does not depend on the earlier one)
+    pars = [Seg("par", ba + bb) for ba, bb in (((("sq", "gelu")), (("sq_nb", "silu"))), ((("fsq", "relu")), (("sq", "gelu"))), ((("sq", "nsm")), (("sq", "gelu"))),
+                                               ((("attn",) + ("sq",)), (("ln", "fsq"))))]
+    for pr in pars:
+        for pre in (None, Seg("lin"), Seg("add_in")):
+            for post, head in ((None, None), (Seg("lin"), "mse"), (Seg("res", ("sq",)), None)):
+                if not th and pre is not None and post is not None and post.kind == "res":
+                    continue
+                specs.append(([s_ for s_ in (pre, pr, post) if s_ is not None], head, False))
     if th:
         for a, b, c in itertools.product(res[:6], [Seg("lin"), Seg("add_in"), Seg("gelu")], res[6:12]):
             specs.append(([a, b, c], None, False))
